@@ -2,15 +2,15 @@
 EXTENDS Value, TLC, Json, IOUtils, SequencesExt
 CONSTANTS UMAX
 Perturb == {-10, -7, -5, -2, -1, 1, 2, 5, 7, 10}      \* per mille: value * (1000 + p) / 1000
-IntUnits == (-8..UMAX) \cup {512, 1024, 2048, 4096, 1000, 4095}
-FloatUnits == {<<1, 2>>, <<1, 4>>, <<3, 2>>, <<2, 1>>, <<3, 1>>, <<4, 1>>, <<13, 2>>, <<8, 1>>, <<0, 1>>, <<5, 2>>, <<-1, 2>>, <<16, 1>>}
+IntUnits == (-8..UMAX) \cup {512, 1024, 2048, 4096, 1000, 4095} \cup {Pow2(k) : k \in 13..30} \cup {Pow2(k) + 1 : k \in 13..29} \cup {3 * Pow2(k) : k \in 13..28}
+FloatUnits == {<<Pow2(29), 1>>, <<Pow2(30), 1>>, <<Pow2(20), 1>>, <<1, 2>>, <<1, 4>>, <<3, 2>>, <<2, 1>>, <<3, 1>>, <<4, 1>>, <<13, 2>>, <<8, 1>>, <<0, 1>>, <<5, 2>>, <<-1, 2>>, <<16, 1>>}
 Counts == -3..24
 Cases == {[kind |-> "value", v |-> v] : v \in Vocabulary} \cup
          {[kind |-> "near", v |-> v, p |-> p] : v \in {w \in Vocabulary : w.d <= 1}, p \in Perturb} \cup
          {[kind |-> "pair", a |-> a, b |-> b] : a \in Vocabulary, b \in Vocabulary} \cup
          {[kind |-> "unit", u |-> <<n, 1>>, f |-> FALSE] : n \in IntUnits} \cup
          {[kind |-> "unit", u |-> u, f |-> TRUE] : u \in FloatUnits} \cup
-         {[kind |-> "meter", c |-> c, u |-> <<n, 1>>, f |-> FALSE] : c \in Counts, n \in {-4, 0, 1, 2, 3, 4, 6, 8, 12, 16, 32, 64, 100, 128}} \cup
+         {[kind |-> "meter", c |-> c, u |-> <<n, 1>>, f |-> FALSE] : c \in Counts, n \in {-4, 0, 1, 2, 3, 4, 6, 8, 12, 16, 32, 64, 100, 128, 536870912, 1073741824}} \cup
          {[kind |-> "meter", c |-> c, u |-> u, f |-> TRUE] : c \in {-1, 0, 3, 4, 6, 9}, u \in FloatUnits}
 VARIABLE done
 Init == done = ndJsonSerialize(IOEnv.OUT, SetToSeq(Cases))
